@@ -117,6 +117,16 @@ def classify_collision(rel: str, api: dict | None) -> str:
     module_named_n = any(m.get("name", "").lstrip("_") == base and m.get("name") != "__init__" for m in api.get("modules", []))
     if reexports_decl_n and module_named_n:
         return "module-vs-reexported-declaration-homonym"
+    # 'homonymous-modules-one-reexported': P's __init__ re-exports a MODULE m under the name N, and two or more modules
+    # called m exist in the analysed files: the re-export lookup goes by the short module name, so all of them are sent to P/N
+    for m in api.get("modules", []):
+        if m.get("id") == pkg_id and m.get("name") == "__init__":
+            for qi in m.get("qualified_imports", []):
+                last = qi.get("qualified_name", "").split(".")[-1]
+                if (qi.get("alias") or last).lstrip("_") == base:
+                    homonyms = [x for x in api.get("modules", []) if x.get("name") == last]
+                    if len(homonyms) >= 2:
+                        return "homonymous-modules-one-reexported"
     return "unclassified"
 
 
